@@ -503,6 +503,23 @@ def c12(case, lines):
     if "L" not in m:
         return c12_per_connection(tr)
     L, Mx, kind = m["L"], m["M"], m["kind"]
+    if (case.get("id") or "").startswith("protocol-maximum"):
+        # a packet of the protocol's maximum size; the harness prints such a write as L<length>:<digest>:<first 16 bytes>
+        res = [r for _, r in tr.done().get(0, [])]
+        big = [l.split(" ")[2] for l in lines if l.split(" ")[1] == "W" and l.split(" ")[2].startswith("L")]
+        if Mx is not None and L > Mx:
+            if big:
+                return "reject: L=%d > M=%d but the packet was written (%s)" % (L, Mx, big[0][:40])
+            if not any("MaximumPacketSizeExceeded" in r for r in res):
+                return "reject: L=%d > M=%d but the operation ended with %s" % (L, Mx, res)
+            return None
+        if any("MaximumPacketSizeExceeded" in r for r in res):
+            return "accept: L=%d <= M=%s (the largest packet MQTT can express) but the operation was refused" % (L, Mx)
+        if len(big) != 1 or not big[0].startswith("L%d:" % L) or not big[0].endswith(":30ffffff7f00017400" + "00" * 7):
+            return "accept: L=%d <= M=%s but the packet was not written in full (wire: %s)" % (L, Mx, [b_[:60] for b_ in big])
+        if not any(r.startswith("ok") for r in res):
+            return "accept: L=%d <= M=%s, the packet was written, the operation ended with %s" % (L, Mx, res)
+        return None
     outp = outbound(tr, connection_streams(tr)[0])
     if outp is None:
         return "wire: the bytes written are not a sequence of whole packets"
